@@ -575,7 +575,8 @@ def Machine.processPrecommit (env : Env) (m : Machine) (v : Vote) : Machine × L
         -- triggerSync
         let lq := max m.lastQuorum v.height
         let start := max (m.lastTriggerSync + 1) m.state.height
-        ({ m with lastQuorum := lq, lastTriggerSync := lq }, [.triggerSync start lq])
+        -- (since b154634 the counted precommit is also written to the WAL)
+        ({ m with lastQuorum := lq, lastTriggerSync := lq }, [.writeWAL (.precommit v), .triggerSync start lq])
       else m.processMessage env v.height v.round (.precommit v)
     else m.processMessage env v.height v.round (.precommit v)
 
